@@ -335,6 +335,39 @@ pub fn run(tier: Tier) -> Report {
     if !light() {
         base += matrix_sweep(&mut rep, &ND5, &ND5, "non-dyadic {-1.7,-.3,.1,.7,1.9}^9 x same^3", base);
     }
+    // near-identity / near-singular-structure family: s*(I + eps*B), B over {-1,0,1}^9 — the inverse
+    // has small but non-zero entries of size eps (structured matrices of the property's quantifier)
+    {
+        let nb = 19683u64;
+        let eps_list = [5e-5f64, 1.2e-4, 1e-3, 0.03];
+        let acc = par_chunks(nb * eps_list.len() as u64 * 2, 1 << 10, |acc, lo, hi| {
+            let vecs: Vec<V3> = vec![[1.0, 0.0, 0.0], [0.0, 1.0, 0.0], [0.0, 0.0, 1.0], [1.0, 1.0, 1.0], [-2.0, 0.5, 1.0]];
+            let mut n = 0;
+            for i in lo..hi {
+                let b = mat_from_index(&T3, i % nb);
+                let eps = eps_list[((i / nb) % eps_list.len() as u64) as usize];
+                let s = if i / (nb * eps_list.len() as u64) == 0 { 1.0 } else { 2.0 };
+                let mut m = [[0.0; 3]; 3];
+                for r in 0..3 {
+                    for c in 0..3 {
+                        m[r][c] = s * (if r == c { 1.0 } else { 0.0 } + eps * b[r][c]);
+                    }
+                }
+                let case = || json!({"kind":"c19","op":"matrix","m":mj(&m),"valpha":[1.0, 0.0, -1.0]});
+                let v3: Vec<V3> = (0..27).map(|k| vec_from_index(&[1.0, 0.0, -1.0], k)).collect();
+                let _ = &vecs;
+                if !record(acc, base + i, "f32", "near-identity", f32i::check_matrix(&m, &v3).map(|_| ()), case) || !record(acc, base + i, "f64", "near-identity", f64i::check_matrix(&m, &v3).map(|_| ()), case) {
+                    return;
+                }
+                n += 1;
+            }
+            acc.states += n;
+            acc.transitions += n * 60;
+            acc.bucket("near-identity family s*(I+eps*B): all laws incl. inverse", n);
+        });
+        rep.acc.merge(acc);
+        base += nb * eps_list.len() as u64 * 2;
+    }
     // mul_mat over {-1,0,1}^9 pairs
     {
         let na = 19683u64;
@@ -376,7 +409,7 @@ pub fn run(tier: Tier) -> Report {
         rep.acc.merge(acc);
     }
     rep.bound = format!(
-        "all {} matrices over the {} alphabet x all vectors over it (mul_vec, mul_arr, transpose, identity, scalar_div, invert when |det|>=0.5); all 5^9 matrices over the non-dyadic alphabet x 125 vectors; all 343^2 + 125^2 vector pairs; mul_mat on {} pairs over {{-1,0,1}}^9 and on A*A^T, A*B for all 5^9 non-dyadic A (B = the matrix at index 7919*i mod 5^9, a fixed bijection); the library's {} colour matrices pairwise; every case for f32 and f64",
+        "all {} matrices over the {} alphabet x all vectors over it (mul_vec, mul_arr, transpose, identity, scalar_div, invert when |det|>=0.5); all 5^9 matrices over the non-dyadic alphabet x 125 vectors; the near-identity family s*(I+eps*B) for all B in {{-1,0,1}}^9, eps in {{5e-5,1.2e-4,1e-3,0.03}}, s in {{1,2}}; all 343^2 + 125^2 vector pairs; mul_mat on {} pairs over {{-1,0,1}}^9 and on A*A^T, A*B for all 5^9 non-dyadic A (B = the matrix at index 7919*i mod 5^9, a fixed bijection); the library's {} colour matrices pairwise; every case for f32 and f64",
         tier.pick(5u64.pow(9), 7u64.pow(9)), tier.pick("5-value", "7-value"), 19683u64 * tier.pick(729, 19683), colour_matrices().len()
     );
     rep.rule = "public methods of yuvxyb_math::{Matrix,RowVector,ColVector} vs f64 definitions: 1e-5*max(1,|exact|) per entry; A*inv(A), inv(A)*A within 1e-4 of I; transpose and identity exact".into();
@@ -384,6 +417,7 @@ pub fn run(tier: Tier) -> Report {
     rep.guard("inverse exercised", rep.acc.buckets.iter().any(|(k, v)| k.contains("inverse checked") && *v > 0));
     rep.guard("singular matrices filtered", rep.acc.buckets.iter().any(|(k, v)| k.contains("inverse not required") && *v > 0));
     rep.guard_bucket("mul_mat pairs over {-1,0,1}^9 exact");
+    rep.guard_bucket("near-identity family s*(I+eps*B): all laws incl. inverse");
     rep.guard_bucket("vector pairs: cross, dot, component_mul, scalar_div, accessors agree");
     rep
 }
